@@ -7,7 +7,10 @@ use crate::error::CacheError;
 use rand::{rngs::StdRng, Rng, SeedableRng};
 use std::fmt::{Debug, Formatter};
 use std::ops::{Index, IndexMut};
+#[cfg(not(transparencies_stretto_verif))]
 use std::time::{SystemTime, UNIX_EPOCH};
+#[cfg(transparencies_stretto_verif)]
+use stretto_sim_rt::time::{SystemTime, UNIX_EPOCH};
 
 const DEPTH: usize = 4;
 
